@@ -73,10 +73,68 @@ def _holds(op, k, x):
     return {"<": x < k, "<=": x <= k, ">": x > k, ">=": x >= k, "==": x == k, "!=": x != k}[op]
 
 
+def _resolve(fn, e):
+    """e, or the initialiser of the single-definition local it names."""
+    from ..canon import info
+    x = e.strip_casts() if e is not None else None
+    seen = 0
+    while x is not None and x.k == "DeclRefExpr" and x.get("dk") == "local" and seen < 3:
+        d0 = info(fn).single_def(x.get("d"))
+        if d0 is None:
+            break
+        x = d0.strip_casts()
+        seen += 1
+    return x
+
+
+def _divmod_of(fn, e, op):
+    """(text of x, K) when e is `x op K` (op is / or %) with K constant, through single-definition locals."""
+    x = _resolve(fn, e)
+    if x is not None and x.k == "BinaryOperator" and x.op == op and x.c[1].cv is not None:
+        return src(x.c[0].strip_casts()), x.c[1].cv
+    return None
+
+
+def _closed_forms(ctx, fn, rule, count):
+    """`memset(op, 255, x / K1); op += ...; *op++ = x % K2;` - the same emission without a loop. The bytes written
+    are x / K1 times 255 and then x % K2; they spell x (sum equals x, last byte below 255) for every x iff
+    K1 = K2 = 255; otherwise the smallest x for which they do not is the witness."""
+    P = ctx.P
+    n = 0
+    for c in fn.calls("memset", "__builtin_memset"):
+        if len(c.args()) < 3 or c.args()[1].cv != K:
+            continue
+        q = _divmod_of(fn, c.args()[2], "/")
+        if q is None:
+            continue
+        rems = []
+        for a in fn.body.walk():
+            if is_assign(a) and a.op == "=" and a.i > c.i and a.c[0].strip().k in ("UnaryOperator", "ArraySubscriptExpr"):
+                r = _divmod_of(fn, a.c[1], "%")
+                if r is not None and r[0] == q[0]:
+                    rems.append((a, r))
+        if not rems:
+            continue
+        n += 1
+        a, r = rems[0]
+        key = "length-extension|%s:%s|%s@C%d" % (P.rel(fn.file), fn.name, q[0], count + n)
+        what = "the closed-form emission `memset(.., 255, %s / %d)` then `%s %% %d` writes the length-extension bytes of %s" % (q[0], q[1], r[0], r[1], q[0])
+        wrong = None
+        for x in range(0, 2100):
+            nb, last = x // q[1], x % r[1]
+            if nb * K + last != x or last >= K:
+                wrong = "for %s = %d it writes %d byte(s) of 255 and then %d: that reads back as %s" % (
+                    q[0], x, nb, last, "a length that continues" if last >= K else str(nb * K + last))
+                break
+        ctx.ob(rule, key, P.where(c), what, wrong is None, wrong or "")
+    return n
+
+
 def check(ctx, relfiles, rule="R35.length-extension"):
     P = ctx.P
     nenc = ndec = 0
     for fn in P.funcs_in(*relfiles):
+        nenc += _closed_forms(ctx, fn, rule, nenc)
         for lp in _loops(fn):
             cond, parts = _cond_body(lp)
             own = list(_own(parts, lp))
@@ -111,16 +169,33 @@ def check(ctx, relfiles, rule="R35.length-extension"):
                 ctx.ob(rule, key, P.where(lp), what, wrong is None, wrong or "`%s`" % src(cond))
                 continue
             # decoder: `s = *ip++; len += s;` repeated on a comparison of s with a constant
+            brk = None
+            for n_ in own:
+                if n_.k == "IfStmt":
+                    kk = [x for x in n_.c if x is not None]
+                    if len(kk) >= 2 and any(x.k == "BreakStmt" for x in kk[1].walk()) and not any(x.k in ("CallExpr", "ReturnStmt") for x in kk[1].walk()):
+                        brk = kk[0]
             adds = [n for n in own if n.k == "CompoundAssignOperator" and n.op == "+=" and n.c[1].strip_casts() is not None
                     and n.c[1].strip_casts().k == "DeclRefExpr"]
             for a in adds:
                 s = a.c[1].strip_casts()
                 loads = [n for n in own if is_assign(n) and n.op == "=" and n.c[0].strip().k == "DeclRefExpr" and n.c[0].strip().get("d") == s.get("d")
-                         and any(y.k == "UnaryOperator" and y.op == "*" for y in n.c[1].walk())]
+                         and any(y.k in ("UnaryOperator", "ArraySubscriptExpr") and (y.k != "UnaryOperator" or y.op == "*") for y in n.c[1].walk())]
+                loads += [n for n in own if n.k == "DeclStmt" and any(
+                    dd.get("d") == s.get("d") and i_ is not None and any(y.k == "ArraySubscriptExpr" or (y.k == "UnaryOperator" and y.op == "*") for y in i_.walk())
+                    for dd, i_ in zip(n.get("decls", []), n.c))]
                 cm = _cmp(cond, s.get("d")) if cond is not None else None
+                cond_shown = cond
+                if cm is None and brk is not None:
+                    # `for (;;) { ...; if (s != 255) break; }`: the loop goes on exactly when the break test fails
+                    cb = _cmp(brk, s.get("d"))
+                    if cb is not None:
+                        cm = ({"<": ">=", ">=": "<", ">": "<=", "<=": ">", "==": "!=", "!=": "=="}[cb[0]], cb[1])
+                        cond_shown = brk
                 if not loads or cm is None or "char" not in (s.t or "") and "uint8_t" not in (s.t or ""):
                     continue
                 ndec += 1
+                cond = cond_shown
                 op, k = cm
                 key = "length-extension-read|%s:%s|%s@L%d" % (P.rel(fn.file), fn.name, src(a.c[0]), ndec)
                 what = "the loop adding length bytes to `%s` reads another byte exactly when the last one was 255" % src(a.c[0])
